@@ -295,8 +295,12 @@ func VfProvide() {
 		e.host.addrs = append(e.host.addrs, vfAddr(50+i))
 	}
 	keep := map[string]bool{}
+	emptyNonNil := vfBool("filter.returnsEmptyNonNilSliceWhenNothingPasses") // as ma.FilterAddrs does
 	d.addrFilter = func(in []ma.Multiaddr) []ma.Multiaddr {
 		var out []ma.Multiaddr
+		if emptyNonNil {
+			out = make([]ma.Multiaddr, 0, len(in))
+		}
 		for _, a := range in {
 			k, ok := keep[string(a.Bytes())]
 			if !ok {
